@@ -322,6 +322,8 @@ def stepOp (m : MState) (toks : List String) : MState × StepResult :=
 
 structure Mon where
   sub : Bool
+  /-- the proxy's own address (header field `me`; empty in older corpus files) -/
+  me : String := ""
   blk : Block := ⟨12345, 1571797419879305533⟩
   inited : Bool := false
   /-- C17 ghost: the admin configuration observed when the contract was first seen immutable -/
@@ -578,6 +580,14 @@ def monitorOp (mu : Mon) (prev : Args) (toks : List String) (implOk : Bool) (out
             [mk "C17" "C17/expiry-changed-by-subkey" s!"subkey={snd} {o.expires.render}->{n.expires.render}"]
         | _, _ => []
        else [])
+    -- a non-admin may never have the proxy call ITSELF while the proxy is one of its own admins: the relayed call
+    -- arrives with the proxy as sender and passes every admin check (UpdateAdmins, Freeze, grants) - seeded change C17-18
+    let f17s := if fresh || mu.me == "" then [] else
+      (if kind == "execute" && implOk && !wasAdmin && pAdmins.contains mu.me &&
+          (msgs.any fun m => match m with | .wasm p => p.startsWith s!"exec/{mu.me}/" | _ => false) then
+        [mk "C17" "C17/self-call-relayed-for-non-admin"
+          s!"{snd} (not an admin) had the proxy call itself while the proxy is one of its own admins: msgs={a.str "msgs"}"]
+       else [])
     let f17 := if fresh then [] else
       (if cAdmins != pAdmins && !(implOk && kind == "update_admins" && pMut && wasAdmin) then
         [mk "C17" "C17/admins-changed" s!"admins changed by {kind} from {snd} (mutable={pMut}, sender admin={wasAdmin})"] else []) ++
@@ -605,13 +615,13 @@ def monitorOp (mu : Mon) (prev : Args) (toks : List String) (implOk : Bool) (out
         if implOk && wasAdmin then none
         else some (mk "C17" "C17/grant-by-non-admin" s!"permissions of {k} changed by {kind} from {snd}"))
     let mu := if !cMut && mu.frozenCfg.isNone then { mu with frozenCfg := some (cur.str "admins", "false") } else mu
-    (mu, f7 ++ fadm ++ fperm ++ f8 ++ fg ++ f17 ++ f17x)
+    (mu, f7 ++ fadm ++ fperm ++ f8 ++ fg ++ f17 ++ f17x ++ f17s)
 
 def wlScen : Scen MState Mon where
   init h := { sub := false, pool := h.list "pool" }
   step := stepOp
   obs := obsOf
-  monInit _ := { sub := false }
+  monInit h := { sub := false, me := h.str "me" }
   monitor := monitorOp
   resync := some resyncOf
 
@@ -619,7 +629,7 @@ def skScen : Scen MState Mon where
   init h := { sub := true, pool := h.list "pool" }
   step := stepOp
   obs := obsOf
-  monInit _ := { sub := true }
+  monInit h := { sub := true, me := h.str "me" }
   monitor := monitorOp
   resync := some resyncOf
 
